@@ -279,8 +279,10 @@ PROPS["C10"] = {
          "build_flags": ["-ldflags=-linkmode=external"], "timeout": {"quick": 300, "thorough": 1800}, "shards": {"quick": 1, "thorough": 2}},
         {"name": "default-varfirst", "pkg": "./zverif/c10", "run": "^TestVerifC10$", "env": {"VERIF_C10_MODE": "default-varfirst", "VERIF_C10_FIRST": "var"},
          "timeout": {"quick": 300, "thorough": 1800}, "shards": {"quick": 1, "thorough": 2}},
+        {"name": "default-tablefirst", "pkg": "./zverif/c10", "run": "^TestVerifC10$", "env": {"VERIF_C10_MODE": "default-tablefirst", "VERIF_C10_FIRST": "table"},
+         "timeout": {"quick": 300, "thorough": 1800}, "shards": {"quick": 1, "thorough": 2}},
     ],
-    "rule": "five builds of the same test binary (default, -ldflags=-s, -buildmode=pie, external linking, external linking stripped), three of them run a second time with a variable as the first name the process looks up (function names first otherwise). Inputs: every function name of the binary's pclntab, every OBJECT "
+    "rule": "five builds of the same test binary (default, -ldflags=-s, -buildmode=pie, external linking, external linking stripped), three of them run a second time with a variable as the first name the process looks up (function names first otherwise), the default build once more after AllFunctions / GetFunctionSymbol and three collections. Inputs: every function name of the binary's pclntab, every OBJECT "
             "symbol of its .symtab plus harness-owned variables in .data/.bss/.noptrdata/.noptrbss whose addresses are known as &v, and rapid-generated "
             "near-miss names (drop/insert/flip a character, strip or swap the package path, add (*T)., prefixes, suffixes) and fresh names. Oracle from "
             "independent sources: pclntab entry + load slide (from /proc/self/maps), runtime.FuncForPC(addr).Entry()==addr and its name, .symtab FUNC value, "
@@ -420,10 +422,13 @@ PROPS["C05"] = {
          "shards": {"quick": 1, "thorough": 12}},
         {"name": "concurrent", "pkg": "./zverif/stubs", "run": "^TestVerifC05Concurrent$", "race": True, "timeout": {"quick": 300, "thorough": 2400},
          "shards": {"quick": 1, "thorough": 4}},
+        {"name": "growing", "pkg": "./zverif/stubs", "run": "^TestVerifC05Growing$", "timeout": {"quick": 300, "thorough": 2400},
+         "shards": {"quick": 1, "thorough": 4}},
     ],
     "rule": "sequential: the C04 configurations with a result sequence of 1..8 elements (distinct, or with runs of repeated neighbouring values) on the default and on every clause (Return+AndReturn, "
             "Returns(...), or Returns(first m) continued with AndReturn) and 5..60 calls selecting stubs in generated interleavings; oracle: one cursor per stub in the reference model (k-th selecting "
-            "call gets element k, later ones the last, stubs advance independently). concurrent (race build): one stub with 2..64 elements, 2..16 "
+            "call gets element k, later ones the last, stubs advance independently); one case in twenty repeats its last call 4200..9000 times; one in ten has 13..40 clauses. growing: a sequence "
+            "(default or conditional) extended with AndReturn in 1..6 batches of 1..90 results while calls consume it (never reaching the tail before the last extension), then run past the tail. concurrent (race build): one stub with 2..64 elements, 2..16 "
             "callers behind a spin barrier with generated yields; oracle sound for any schedule: every value is an element, positions never decrease "
             "within a caller, after a call returning the last element has completed every call started later returns the last, no race report. "
             "Non-trivial (sequential): >=2 stubs with >=2 elements and a call beyond a tail; (concurrent) every round; distinct by configuration and "
@@ -447,7 +452,8 @@ PROPS["C09"] = {
             "on one corpus function (half of them variadic), each When(values) / In(tuple, tuple) / When then In on one stub with per-parameter values "
             "supplied as ordinary / nil / stand-in struct / stand-in pointer; calls with independently built equal arguments must yield the condition's "
             "result, a call differing in one scalar argument the default. standin-reuse: 2..6 uses of ONE stand-in struct type (by value and by pointer) for "
-            "three declared types of identical layout, as Return values and as When conditions. Distinct by (function, supply kinds, codes).",
+            "three declared types of identical layout, as Return values and as When conditions. self-typed-values: values of the types goom computes with "
+            "(reflect.Value of 8 payload kinds incl. the zero Value, reflect.Type, []interface{}) as results, boxed into interface{} results and as When conditions. Distinct by (function, supply kinds, codes).",
     "assumptions": ["same-size values of a different non-struct type are outside the enumerated guarantees"],
     "floors": [("results", "rejected-wrong-size", 300), ("results", "delivered/untyped-nil/func", 8), ("results", "delivered/standin/struct", 50),
                ("results", "delivered/standin-ptr/ptr", 5), ("results", "delivered/untyped-nil/interface", 50), ("results", "standin/pointer-shaped-struct", 20),
